@@ -94,6 +94,9 @@ func runC16(c *Ctx) {
 		{bases: []string{"localhost:9000"}},
 		{bases: []string{".dotted.base."}},
 		{hostBucket: true, bases: []string{"s3.example.com"}},
+		{bases: []string{"localhost", "s3.localhost"}},          // an earlier base is a suffix of a later one
+		{bases: []string{"s3.localhost", "localhost"}},
+		{bases: []string{"example.com", "s3.example.com", "eu.s3.example.com"}},
 		{},
 	}
 	labels := []string{"mybucket", "abc", "b-2", "a1b"}
@@ -105,7 +108,7 @@ func runC16(c *Ctx) {
 		h := g.Server()
 		var hosts []string
 		for _, l := range labels[:2] {
-			for _, b := range append(append([]string{}, cfg.bases...), "s3.example.com", "unrelated.org", "localhost", "localhost:9000") {
+			for _, b := range append(append([]string{}, cfg.bases...), "s3.example.com", "unrelated.org", "localhost", "localhost:9000", "s3.localhost", "eu.s3.example.com") {
 				nb := strings.Trim(b, ".")
 				hosts = append(hosts, l+"."+nb, l+"."+nb+":8080", "x."+l+"."+nb, nb, l, l+".", "."+nb, l+".."+nb)
 			}
@@ -140,15 +143,20 @@ func runC16(c *Ctx) {
 		c.hist("rewrite-configs")
 	}
 	// (b) behaviour level: shared backend
-	for _, cfg := range cfgs[:6] {
+	for _, cfg := range cfgs[:9] {
 		backend := s3mem.New(s3mem.WithTimeSource(gofakes3.FixedTimeSource(impl.FixedTime)), s3mem.WithVersionSeed(1))
 		pathSrv := gofakes3.New(backend, hostCfg{}.opts()...).Server()
 		hostSrv := gofakes3.New(backend, cfg.opts()...).Server()
-		base := "s3.example.com"
+		basesToTry := []string{"s3.example.com"}
 		if len(cfg.bases) > 0 {
-			base = strings.Trim(cfg.bases[0], ".")
+			basesToTry = nil
+			for _, bb := range cfg.bases {
+				basesToTry = append(basesToTry, strings.Trim(bb, "."))
+			}
 		}
-		for _, b := range labels {
+		base := basesToTry[0]
+		for li, b := range labels {
+			base = basesToTry[li%len(basesToTry)]
 			host := b + "." + base
 			pair := func(name, method, keyPath, query string, hdr map[string]string, body []byte, mutating bool) {
 				// path style
@@ -229,6 +237,17 @@ func runC16(c *Ctx) {
 		// hosts that are not <single label>.<base> fall back to path style (base lists only)
 		if len(cfg.bases) > 0 {
 			for _, host := range []string{base, "a.b." + base, "unrelated.org", "mybucket." + base + ".evil.org", "mybucket." + base + ":1234"} {
+				// with overlapping bases a host may be <label>.<other base>: then it is not a fallback host
+				isLabelBase := false
+				for _, bb := range cfg.bases {
+					nb := "." + strings.Trim(bb, ".")
+					if strings.HasSuffix(host, nb) && !strings.Contains(strings.TrimSuffix(host, nb), ".") {
+						isLabelBase = true
+					}
+				}
+				if isLabelBase {
+					continue
+				}
 				serveRaw(pathSrv, "PUT", "plain.host", "/fallback/obj", "", nil, []byte("fb"))
 				serveRaw(pathSrv, "PUT", "plain.host", "/fallback", "", nil, nil)
 				serveRaw(pathSrv, "PUT", "plain.host", "/fallback/obj", "", nil, []byte("fb"))
